@@ -312,6 +312,21 @@ def loop_trip(SR, g, n, env=None, outer=None):
         lp = None       # loops that also enclose the announcement are the same iteration
     if lp is None:
         return None
+    up = g.enclosing(lp, ("ForStmt", "WhileStmt", "DoStmt"))
+    nested_ok = up is None or (outer and up["i"] in outer)
+    from ..cfg import loop_shape as _ls
+    sh = _ls(g, lp)
+    if sh is not None and sh["stepped"] and nested_ok:
+        cons = []
+        if sh["dir"] == "up" and sh["rel"] == "<" and sh["start"] is not None and cv(sh["start"]) == 0:
+            return SR.value(g, sh["bound"], env or {}, cons)
+        if sh["dir"] == "down" and sh["rel"] in (">0", "--"):
+            if sh["bound"] is not None:
+                return SR.value(g, sh["bound"], env or {}, cons)
+            # a by-value parameter counted down: its incoming value is the trip count
+            if (env or {}).get(sh["var"]) is not None and not [w for w in g.walk() if w["k"] == "BinaryOperator" and w.get("op") == "=" and
+                                                              strip(kids(w)[0]).get("declId") == sh["var"]]:
+                return env[sh["var"]]
     if lp["k"] != "ForStmt":
         return False
     lk = lp.get("c", [])
@@ -599,8 +614,11 @@ def suffix_and_file_rules(rep, F, funcs, nlr, SR, callers_of):
         bool(rs) and render(call_args(rs[0])[0]) == "size_ + 1"
     g2.check(okc, "sentinel-store", short_loc(h.loc),
              "array is resized to size_ + 1 and array[size_] = 0 is stored on every path")
-    lp = [n for n in h.walk() if n["k"] == "WhileStmt"]
-    okl = bool(lp) and render(kids(lp[0])[0]) == "offset < size_" and "size_ - offset" in render(lp[0])
+    lp = [n for n in h.walk() if n["k"] in ("WhileStmt", "ForStmt")]
+    okl = False
+    if lp:
+        cnd_ = lp[0].get("c", [None] * 5)[2] if lp[0]["k"] == "ForStmt" else kids(lp[0])[0]
+        okl = cnd_ is not None and render(cnd_).replace(" ", "") == "offset<size_" and "size_ - offset" in render(lp[0])
     g2.check(okl, "read-loop-bounded", short_loc(h.loc), "read loop `while (offset < size_)` reads at most size_ - offset bytes")
 
 
